@@ -33,14 +33,15 @@ impl HuffmanCode {
 
         let mut bits = Vec::with_capacity(values.len());
         let mut next_code = 0u64;
-        let mut prev_len = lengths[0];
+        let mut prev_len = lengths.first().copied().unwrap_or(0);
         for &len in &lengths {
-            let shift_len = 64 - len;
+            let shift_len = 64 - len as u32;
             if len != prev_len {
                 next_code <<= len - prev_len;
                 prev_len = len;
             }
-            bits.push(next_code << shift_len);
+            // A zero-length code (possible only in inconsistent reconstruction data) has no bits.
+            bits.push(next_code.checked_shl(shift_len).unwrap_or(0));
             next_code += 1;
         }
 
